@@ -281,6 +281,7 @@ RULES = [
 def rule_inventory(ctx):
     from . import inventory
     inventory.check(ctx, ['sched-queue-pull', 'sched-queue-insert'])
+    inventory.check_narrowing(ctx)
 
 
 RULES.append(("C10.h", "state-mutation inventory: no new site that changes the content of the state this property rests on", rule_inventory))
